@@ -1278,6 +1278,9 @@ func c20Instances(add func(*Instance), thorough bool) {
 		ad(with(base, "q", 5, "fs", 0, "w", 3), 0)
 		ad(with(base, "q", 5, "fs", 0, "par", 2), 0)
 		if pkg == "roaring64" {
+			// the widest fixed index (65 planes): BatchEqual takes the per-column scan path instead of the plane-wise one
+			ad(with(base, "q", 4, "fs", 0, "fixed", 2), 0)
+			ad(with(base, "q", 4, "fs", 2, "fixed", 2), 0)
 			for _, cop := range []int{1, 3, 6} {
 				ad(with(base, "q", 1, "cop", cop, "fs", 0), 0)
 			}
